@@ -377,7 +377,7 @@ def corrupt(r, blk, ctx_before):
         return blk + S.rep_indexed(hi + 1 + r.choice([0, 1, 100])), "index-past-end"
     if k == 2:
         return blk + S.rep_literal("inc", b"", b"x", hi + 1), "name-index-past-end"
-    if k == 3 and blk:
+    if k == 3 and len(blk) > 1:
         return blk[:r.randrange(max(1, len(blk) - 3), len(blk))], "truncated"
     if k == 4:
         return blk + b"\x00\x05ab", "truncated-string"
